@@ -43,10 +43,14 @@ def main():
     base_py = tracemalloc.get_traced_memory()[0]
     base_rss = rss()
     total = 0
+    errors = 0
     for i in range(calls):
         d = data_for(i, seed)
         # every fifth input arrives in a bytearray (what a fuzzing engine may hand over): the mutator has to cope
-        total += len(m.mutate(bytearray(d) if i % 5 == 4 else d, 4096))
+        try:
+            total += len(m.mutate(bytearray(d) if i % 5 == 4 else d, 4096))
+        except Exception:  # noqa: BLE001 - a raising mutate() is C13's business; memory is measured regardless
+            errors += 1
         if i % 4 == 0:
             total += len(bytes(g.generate_from_bytes(d)))
     gc.collect()
@@ -62,7 +66,7 @@ def main():
         del x
     gc.collect()
     alive = sum(1 for r in refs if r() is not None)
-    json.dump({"calls": calls, "bytes_returned": total, "py_growth": py_growth, "rss_growth": rss_growth, "dropped_alive": alive, "dropped_total": len(refs)}, sys.stdout)
+    json.dump({"calls": calls, "bytes_returned": total, "py_growth": py_growth, "rss_growth": rss_growth, "dropped_alive": alive, "dropped_total": len(refs), "mutate_raised": errors}, sys.stdout)
 
 
 if __name__ == "__main__":
